@@ -38,6 +38,8 @@ TRUSTED = [
     "extraction: ExtrOcamlBasic only; ocamlfind ocamlopt 4.13.1; coq/extract/common.ml + repoext_driver.ml (parsing/printing; its core part is a textual copy of repo_driver.ml)",
     "correspondence: vlib/repo.py + vlib/repoext.py (scenario runner on the hook-instrumented xvc binary built from /repo, observer of workspace / cache / store event logs, canonicaliser); tools/blake3_ref.py and Python hashlib as independent hash implementations",
     "modelled, not verified: file/src/{copy,mv,remove,untrack}/mod.rs, file/src/common/mod.rs (filter_targets_from_store, filter_paths_by_globs, build_glob_matcher without its is_dir test, cache_paths_for_xvc_paths, recheck_from_cache), file/src/recheck/mod.rs::make_recheck_handler, core/src/types/xvcpath.rs (XvcCachePath::new/remove, XvcPath::join/join_file_name/parents) as Repo/Ext.v over Repo/Model.v (track / carry-in / recheck, the file system with inodes) and Glob/Match.v (fast-glob); hash functions are ideal; --only-version prefixes are given to the model as the set of digests they match; the component stores are seen through their loaded maps (justified by C08); commands run from the repository root (C18 is a separate property); .gitignore handling, --from-storage and --restore-versions are not in the model (the real-run oracles still apply to --restore-versions runs)",
+    "reachability theorems (Repo/ExtReach.v) rest on INV of Repo/Inv.v (b-repo-core) and its preservation by track / carry-in / recheck outside that file's monitor `unclean`; the extracted predicate ExtReach.xclean is evaluated on every generated history and the count of items inside the theorems' domain is reported in the distribution",
+    "the model switches fixed_P7 / fixed_P8 / fixed_mv_absent are read from the text of file/src/untrack/mod.rs and file/src/mv/mod.rs (presence of the repaired constructs); a wrong reading shows up as a correspondence failure",
     "the visiting order of the targets of one command (HashMap iteration) is a parameter of the model; it only matters when a command panics half-way: on such items the workspace part of multi-target observations is not compared",
     "environment assumptions: edits_visible (every user write gets a distinct explicit mtime); POSIX rename/link/symlink/unlink semantics",
 ]
@@ -100,12 +102,13 @@ def item_from_json(j):
 
 # ---- model observations -------------------------------------------------------------------------------------
 def parse_model_obs(txt):
-    m = re.match(r"(.*) dirs=(\S*)$", txt)
+    m = re.match(r"(.*) dirs=(\S*) clean=([01])$", txt)
     if not m:
         return {"error": txt[:300]}
     o = R.parse_model_obs(m.group(1))
     if "error" not in o:
         o["dirs"] = sorted(bytes.fromhex(h).decode("utf-8", "replace") for h in m.group(2).split(",") if h)
+        o["clean"] = m.group(3) == "1"
     return o
 
 
@@ -190,13 +193,22 @@ class Scenario:
         self.robs = self.eff = self.log = None
 
 
-def execute(xvc, sc):
-    rr = XRun(xvc, sc.cfg, parallel=sc.parallel)
-    try:
-        sc.robs, sc.eff = rr.run(sc.items)
-        sc.log = rr.log
-    finally:
-        rr.close()
+def execute(xvc, sc, attempts=2):
+    """runs the scenario in a fresh scratch repository; a run that dies of an environment failure
+    (scratch file system full, ...) is repeated once from scratch before the error is let through"""
+    for k in range(attempts):
+        rr = None
+        try:
+            rr = XRun(xvc, sc.cfg, parallel=sc.parallel)
+            sc.robs, sc.eff = rr.run(sc.items)
+            sc.log = rr.log
+            return sc
+        except (OSError, ValueError, RuntimeError):
+            if k + 1 == attempts:
+                raise
+        finally:
+            if rr is not None:
+                rr.close()
     return sc
 
 
@@ -261,6 +273,11 @@ def strict_outcome_diff(m, r):
 def correspond(model_bin, sc, flags=FLAGS_AS_IS):
     """None, or (item index, differences)"""
     mobs = run_model(model_bin, [(sc.cfg, sc.eff)], flags)[0]
+    sc.clean_prefix = 0
+    for m in mobs:
+        if not m.get("clean"):
+            break
+        sc.clean_prefix += 1
     for j, (m, r) in enumerate(zip(mobs, sc.robs)):
         it = sc.eff[j]
         prev = sc.robs[j - 1] if j else None
@@ -532,6 +549,7 @@ def run_property(chk, replay, focus, oracle, classify_corr, nontrivial, rule, n_
             "user": 0, "Ok": 0, "Err": 0, "Panic": 0, "real_run_s": round(time.time() - t0, 1)}
     reported = 0
     agreed = 0
+    dom = {"items_inside_theorem_domain": 0, "histories_entirely_inside": 0}
     for sc in scs:
         chk.count(json.dumps(to_replay(sc), sort_keys=True), nontrivial(sc))
         for it, o in zip(sc.eff, sc.robs):
@@ -559,6 +577,8 @@ def run_property(chk, replay, focus, oracle, classify_corr, nontrivial, rule, n_
             reported += 1
             continue
         mm = correspond(model, sc, flags)
+        dom["items_inside_theorem_domain"] += getattr(sc, "clean_prefix", 0)
+        dom["histories_entirely_inside"] += getattr(sc, "clean_prefix", 0) >= len(sc.robs)
         if mm is None:
             agreed += 1
         elif reported < 3:
@@ -571,6 +591,7 @@ def run_property(chk, replay, focus, oracle, classify_corr, nontrivial, rule, n_
     for sc in scs[-3:]:
         chk.sample(to_replay(sc))
     chk.cov["traces_validated_against_impl"] = agreed
+    dist.update(dom)
     chk.cov["distribution"] = dist
     chk.cov["rule"] = rule
     return chk
